@@ -1,17 +1,248 @@
 /-
   Property C11 — serialization: round trip, exact size, protobuf wire compatibility, hostile input.
-  Property theorems only (helper lemmas live in Babylon/Wire/Lemmas*.lean).
+  Property theorems only; the model is Babylon/Wire/{Varint,Codec}.lean, helper lemmas are
+  Babylon/Wire/Lemmas*.lean.
+
+  Reading guide
+  * `Ty`/`Val`/`size`/`encode`/`decode`/`parse`, the stream state `St` and the presentation `Pres` are defined in
+    Babylon/Wire/Codec.lean; `Cfg.repaired dbg` is the shape of the source after the three repairs
+    (8b82019 vector loop guard, b08339f unreadable length, d4a542c stale field cache) in a debug (`dbg = true`) or
+    NDEBUG build; `gen_source_is_repaired` pins that the source in /repo has that shape.
+  * hypotheses: `wfTy` (a type that can be declared in C++), `hasTy` (a value of the type), and for the round trip
+    `canonTy`/`canon` (the shapes excluded from it are listed at `decode_encode` and exhibited by the
+    `finding_*` theorems below and by the harness as known findings).
 -/
-import Babylon.Wire.Codec
+import Babylon.Wire.LemmasRoundtrip2
+import Babylon.Wire.LemmasTotal
 
 namespace Babylon.Properties.C11
 open Babylon.Wire Babylon.Gen.Wire
 
-/-- Generated obligation: the parse loops have the repaired shape (vector loops like list). -/
+/-! ## Generated obligations: the model was written against this source -/
+
+/-- `varint_size` is `((63 ^ clz(v | 1)) * 9 + 73) / 64`. -/
+theorem gen_varint_size_expr : vsOr = 1 ∧ vsXor = 63 ∧ vsMul = 9 ∧ vsAdd = 73 ∧ vsDiv = 64 := by decide
+
+/-- The compiled `SerializationHelper::varint_size` and protobuf's `VarintSize32/64` (used by the scalar traits)
+take, at every power of two and just below, the values of the model's `varintSize`. -/
+theorem gen_varint_size_probe :
+    varintSizeAtPow2 = (List.range 64).map (fun k => varintSize (2 ^ k)) ∧
+    varintSizeBelowPow2 = (List.range 65).map (fun k => varintSize (2 ^ k - 1)) ∧
+    pbVarintSize64AtPow2 = varintSizeAtPow2 ∧ pbVarintSize64BelowPow2 = varintSizeBelowPow2 ∧
+    pbVarintSize32AtPow2 = varintSizeAtPow2.take 32 ∧ pbVarintSize32BelowPow2 = varintSizeBelowPow2.take 33 := by
+  decide
+
+/-- `make_tag` is `field_number << 3 | WIRE_TYPE`, the parser dispatches on `tag >> 3` and checks `tag & 7`; the
+compiled `make_tag` agrees with `mkTag` on sample types. -/
+theorem gen_tag :
+    tagShift = 3 ∧ tagFieldShift = 3 ∧ tagWireMask = 7 ∧
+    probedTags = [("agg", 5, mkTag 5 (.agg false .nil)), ("i32", 5, mkTag 5 (.int 32 true)),
+                  ("f32", 300, mkTag 300 .f32), ("f64", 1, mkTag 1 .f64)] := by decide
+
+/-- `SerializeTraits<T>::WIRE_TYPE` of every kind of the universe is the model's `Ty.wire`. -/
+theorem gen_wire_types :
+    wtVarint = 0 ∧ wtFixed64 = 1 ∧ wtLenDelim = 2 ∧ wtFixed32 = 5 ∧
+    wireTypes =
+      [("bool", Ty.bool.wire), ("i8", (Ty.int 8 true).wire), ("i16", (Ty.int 16 true).wire),
+       ("i32", (Ty.int 32 true).wire), ("i64", (Ty.int 64 true).wire), ("u8", (Ty.int 8 false).wire),
+       ("u16", (Ty.int 16 false).wire), ("u32", (Ty.int 32 false).wire), ("u64", (Ty.int 64 false).wire),
+       ("enum", (Ty.enum 32 true).wire), ("f32", Ty.f32.wire), ("f64", Ty.f64.wire), ("str", Ty.str.wire),
+       ("vec", (Ty.vec (.int 32 true)).wire), ("vecf32", (Ty.vec .f32).wire), ("vecstr", (Ty.vec .str).wire),
+       ("arr", (Ty.arr (.int 32 true) 3).wire), ("arrf64", (Ty.arr .f64 2).wire), ("list", (Ty.list (.int 32 true)).wire),
+       ("set", (Ty.set (.int 32 true)).wire), ("map", (Ty.map (.int 32 true) (.int 32 true)).wire),
+       ("uptrI", (Ty.uptr (.int 32 true)).wire), ("uptrF", (Ty.uptr .f32).wire), ("uptrS", (Ty.uptr .str).wire),
+       ("sptrI", (Ty.sptr (.int 64 true)).wire), ("sptrD", (Ty.sptr .f64).wire), ("sptrS", (Ty.sptr .str).wire),
+       ("agg", (Ty.agg false .nil).wire), ("aggTrivial", (Ty.agg false .nil).wire)] := by decide
+
+/-- bool and the 8/16/32-bit integers go through `Varint32`, the 64-bit integers and enums through `Varint64`
+(`intVarintBits`, `enumVarintBits` in the model). -/
+theorem gen_varint_kinds :
+    varint32Kinds = ["bool", "int8_t", "int16_t", "int32_t", "uint8_t", "uint16_t", "uint32_t"] ∧
+    varint64Kinds = ["int64_t", "uint64_t"] ∧ enumVarintBits = 64 ∧
+    intVarintBits 8 = 32 ∧ intVarintBits 16 = 32 ∧ intVarintBits 32 = 32 ∧ intVarintBits 64 = 64 := by decide
+
+/-- Aggregate macro rules: an empty member is omitted; only COMPLEX members have a per-field size cache, and it is
+written before the `size == 0` return; the whole-object cache exists from 10 weighted members on (COMPLEX 10,
+SIMPLE 1, TRIVIAL 0).  (The base class is not counted: known finding `oracle:complex-base-uncached`.) -/
+theorem gen_aggregate_rules :
+    emptyMemberOmitted = true ∧ fieldCacheOnlyForComplex = true ∧ fieldCacheWrittenBeforeZeroTest = true ∧
+    aggWholeCacheThreshold = 10 ∧ aggCountComplex = 10 ∧ aggCountSimple = 1 ∧ aggCountTrivial = 0 ∧
+    aggCountIncludesBase = false ∧ cxComplex = 0 ∧ cxSimple = 1 ∧ cxTrivial = 2 := by decide
+
+/-- Every container parse loop is guarded by `GetDirectBufferPointer` (vector included, since 8b82019) and the
+float/double `reserve` is guarded. -/
 theorem gen_loop_guards :
     vectorLoopGuard = "GetDirectBufferPointer" ∧ vectorBoolLoopGuard = "GetDirectBufferPointer" ∧
     listLoopGuard = "GetDirectBufferPointer" ∧ setLoopGuard = "GetDirectBufferPointer" ∧
     mapLoopGuard = "GetDirectBufferPointer" ∧ aggLoopGuard = "GetDirectBufferPointer" ∧
     vectorReserveGuarded = true := by decide
+
+/-- A length prefix that cannot be read fails the parse (since b08339f); the wire type of a known field is
+compared in debug builds only; string parse clears, vector parse appends, `unique_ptr` keeps an existing pointee,
+`shared_ptr` always makes a new one. -/
+theorem gen_parser_shape :
+    lengthReadChecked = true ∧ debugWireTypeCheck = true ∧ ndebugWireTypeCheck = false ∧
+    stringClearsBeforeParse = true ∧ vectorClearsBeforeParse = false ∧ uniquePtrKeepsExisting = true ∧
+    sharedPtrAlwaysNew = true := by decide
+
+/-- `consume_unknown_field`: varint → read a varint; fixed32 → skip 4; fixed64 → skip 8; length-delimited → read a
+varint and skip that many bytes; anything else fails. -/
+theorem gen_unknown_field_cases :
+    unknownFieldCases = [(0, "varint64"), (5, "skip 4"), (1, "skip 8"), (2, "varint64;skip varint")] := by decide
+
+/-- The source in /repo has the repaired shape the theorems below are about. -/
+theorem gen_source_is_repaired (dbg : Bool) : Cfg.ofSource dbg = Cfg.repaired dbg := by
+  cases dbg <;> decide
+
+/-! ## A. Varints and sizes -/
+
+/-- Reading back a written varint: for every `v < 2^64` and whatever follows, scanning (at most 10 bytes) returns
+`v` and the number of bytes written. -/
+theorem varint_roundtrip (v : Nat) (hv : v < 2 ^ 64) (rest : Bytes) :
+    scanVarint 10 (encVarint v ++ rest) = some (v, (encVarint v).length) :=
+  scanVarint_encVarint v hv rest
+
+/-- The code's clz formula `((63 ^ clz(v|1)) * 9 + 73) / 64` is the number of 7-bit groups written, for all
+`v < 2^64`. -/
+theorem varint_size_formula (v : Nat) (hv : v < 2 ^ 64) :
+    (Nat.log2 (v ||| 1) * 9 + 73) / 64 = (encVarint v).length :=
+  (encVarint_length v hv).symm
+
+/-- **Exact size**: for every declarable type and every value (well-typed or not) whose encoding stays below
+4 GiB — beyond which `WriteVarint32(size)` truncates a length prefix — the predicted size is the number of bytes
+produced. -/
+theorem size_eq_length (t : Ty) (ht : wfTy t = true) (v : Val) (hs : size t v < 2 ^ 32) :
+    (encode t v).length = size t v :=
+  encode_length t ht v hs
+
+/-! ## A. Hostile input: termination and bounds -/
+
+/-- **Parsing terminates and stays inside the input**: for every declarable type, every byte string (shorter than
+2 GiB, what the `int`-sized protobuf streams address), every presentation (array- or stream-backed, with or
+without an outer limit), every object parsed into, debug or NDEBUG build: the parser never spins or aborts
+(`noret`), and when it reports success it has consumed `k` bytes with `k` at most the number of bytes readable
+before the limit / the end of the input — it never looks at anything else (`Adv`, `St.window`) — and has restored
+the limit it was given. -/
+theorem decode_total_bounded (dbg : Bool) (t : Ty) (ht : wfTy t = true) (p : Pres) (bs : Bytes)
+    (hlen : bs.length ≤ intMax) (d : Val) :
+    parse (Cfg.repaired dbg) t p bs d ≠ .noret ∧
+    ∀ v st', parse (Cfg.repaired dbg) t p bs d = .ok v st' →
+      ∃ k, k ≤ (St.init p bs).avail ∧ k ≤ bs.length ∧ st' = (St.init p bs).adv k := by
+  have h := decode_spec dbg t ht (St.init p bs) d (init_WF p bs hlen)
+  refine ⟨h.2, fun v st' e => ?_⟩
+  obtain ⟨k, hk, rfl⟩ := (h.1 v st' e).1
+  refine ⟨k, hk, ?_, rfl⟩
+  have := (St.init p bs).avail_le_length
+  have hb : (St.init p bs).bs = bs := by
+    unfold St.init
+    cases p.outer <;> simp
+  rw [hb] at this
+  omega
+
+/-- The same for a parser started in the middle of a stream (any well-formed state): this is what every nested
+`deserialize` call sees. -/
+theorem decode_total_bounded_state (dbg : Bool) (t : Ty) (ht : wfTy t = true) (st : St) (hwf : st.WF) (d : Val) :
+    decode (Cfg.repaired dbg) t st d ≠ .noret ∧
+    ∀ v st', decode (Cfg.repaired dbg) t st d = .ok v st' → Adv st st' :=
+  ⟨(decode_spec dbg t ht st d hwf).2, fun v st' e => ((decode_spec dbg t ht st d hwf).1 v st' e).1⟩
+
+/-! ## A. Round trip -/
+
+/-- **Round trip**.  For every declarable canonical type `t`, every well-typed canonical value `v` whose encoding is
+below 2 GiB, every presentation that shows all the bytes (flat array, string, stream-backed with any chunking,
+with or without an enclosing limit), debug or NDEBUG build: parsing `encode t v` into a fresh object succeeds,
+consumes exactly the encoding and yields `norm t v` — `v` itself, except that a smart pointer to a value whose
+encoding is empty reads back as null (the exception stated in the property).
+
+Canonical (`canonTy`, `canon`) excludes exactly:
+* a string / container / pointer member with a non-empty default member initialiser (`resettable`), and containers
+  or arrays whose elements are smart pointers to a varint / fixed-width type (`Ty.packedNonEmpty`) — both are run on
+  the real code and reported as known findings (`finding_nonempty_default`, `finding_null_scalar_ptr`);
+* sets / maps with duplicate keys, which are not values of the C++ containers.
+Not covered by the model at all: the size caches (known finding `oracle:complex-base-uncached`, and the repaired
+`oracle:stale-field-cache`, are caught by the harness oracle only). -/
+theorem decode_encode (dbg : Bool) (t : Ty) (v : Val) (p : Pres) (ht : wfTy t = true) (hc : canonTy t = true)
+    (hv : hasTy t v = true) (hcv : canon t v = true) (hsz : size t v < 2 ^ 31) (hp : p.shows (size t v)) :
+    parse (Cfg.repaired dbg) t p (encode t v) (dflt t) =
+      .ok (norm t v) ((St.init p (encode t v)).adv (size t v)) := by
+  have hlen := encode_length t ht v (by omega)
+  have hle : (encode t v).length ≤ intMax := by rw [hlen]; unfold intMax; omega
+  have hw := init_window p (encode t v) hle (by rw [hlen]; exact hp)
+  have := (rt dbg t ht hc v (dflt t) hv hcv (resettable_dflt t hc) hsz).1 (St.init p (encode t v))
+    (init_WF p _ hle) hw
+  rw [hlen] at this
+  exact this
+
+/-- The same into any object whose members are resettable (e.g. an object that was parsed into before and
+cleared), not only a default-constructed one. -/
+theorem decode_encode_into (dbg : Bool) (t : Ty) (v d : Val) (p : Pres) (ht : wfTy t = true) (hc : canonTy t = true)
+    (hv : hasTy t v = true) (hcv : canon t v = true) (hd : resettable t d = true) (hsz : size t v < 2 ^ 31)
+    (hp : p.shows (size t v)) :
+    parse (Cfg.repaired dbg) t p (encode t v) d = .ok (norm t v) ((St.init p (encode t v)).adv (size t v)) := by
+  have hlen := encode_length t ht v (by omega)
+  have hle : (encode t v).length ≤ intMax := by rw [hlen]; unfold intMax; omega
+  have hw := init_window p (encode t v) hle (by rw [hlen]; exact hp)
+  have := (rt dbg t ht hc v d hv hcv hd hsz).1 (St.init p (encode t v)) (init_WF p _ hle) hw
+  rw [hlen] at this
+  exact this
+
+/-- **Absent fields keep their defaults / empty ⇒ default**: a value whose encoding is empty reads back as any
+resettable object of its type — so a member that is omitted from the wire (size 0) and therefore keeps the fresh
+object's default is exactly what the round trip needs. -/
+theorem empty_encoding_reads_as_default (t : Ty) (v d : Val) (ht : wfTy t = true) (hc : canonTy t = true)
+    (hv : hasTy t v = true) (hd : resettable t d = true) (h0 : size t v = 0) : norm t v = d :=
+  norm_of_size_zero t ht hc v d hv hd h0
+
+/-! ### the hypotheses are satisfiable (and the theorems say something on a real struct) -/
+
+/-- `struct A1 { int32_t a; std::string s; std::vector<int32_t> v; BABYLON_SERIALIZABLE((a,1)(s,2)(v,3)) }` -/
+def exTy : Ty :=
+  .agg false (.cons 1 (.int 32 true) (.num 0) (.cons 2 .str (.bytes []) (.cons 3 (.vec (.int 32 true)) .nil .nil)))
+/-- `{5, "ab", {1, -1, 300}}` -/
+def exVal : Val :=
+  .cons (.num 5) (.cons (.bytes [97, 98]) (.cons (.cons (.num 1) (.cons (.num 4294967295) (.cons (.num 300) .nil))) .nil))
+
+example : wfTy exTy = true ∧ canonTy exTy = true ∧ hasTy exTy exVal = true ∧ canon exTy exVal = true ∧
+    size exTy exVal < 2 ^ 31 := by decide
+example : encode exTy exVal = [0x08, 0x05, 0x12, 0x02, 0x61, 0x62, 0x1a, 0x08, 0x01, 0xff, 0xff, 0xff, 0xff, 0x0f, 0xac, 0x02] := by
+  decide
+example : (⟨false, none⟩ : Pres).shows 16 := fun _ h => by cases h
+
+/-! ## Witnesses: why the hypotheses are there (each is also run on the real code by the harness) -/
+
+/-- Known finding `oracle:nonempty-default`: `struct { std::string s {"abc"}; }` with `s = ""` — the empty member is
+omitted and the fresh object keeps `"abc"`. -/
+theorem finding_nonempty_default :
+    let t : Ty := .agg false (.cons 1 .str (.bytes [97, 98, 99]) .nil)
+    let v : Val := .cons (.bytes []) .nil
+    wfTy t = true ∧ hasTy t v = true ∧ canonTy t = false ∧
+    parse (Cfg.repaired false) t ⟨true, none⟩ (encode t v) (dflt t) =
+      .ok (.cons (.bytes [97, 98, 99]) .nil) (St.init ⟨true, none⟩ []) := by decide
+
+/-- Known finding `oracle:null-scalar-ptr-in-container`: `std::vector<std::unique_ptr<int32_t>> {nullptr, &5}`
+encodes as `05` and reads back `{&5}`. -/
+theorem finding_null_scalar_ptr :
+    let t : Ty := .vec (.uptr (.int 32 true))
+    let v : Val := .cons .null (.cons (.some (.num 5)) .nil)
+    wfTy t = true ∧ hasTy t v = true ∧ canonTy t = false ∧ encode t v = [5] ∧
+    parse (Cfg.repaired false) t ⟨true, none⟩ (encode t v) (dflt t) =
+      .ok (.cons (.some (.num 5)) .nil) ((St.init ⟨true, none⟩ [5]).adv 1) := by decide
+
+/-- Before 8b82019 (`vecGuardLimit`): a top-level `std::vector<int32_t> {1,2,3}` presented by a stream-backed
+`CodedInputStream` without a limit parsed as empty, with success. -/
+theorem witness_vector_no_limit :
+    parse { Cfg.repaired false with vecGuardLimit := true } (.vec (.int 32 true)) ⟨false, none⟩ [1, 2, 3] .nil =
+      .ok .nil (St.init ⟨false, none⟩ [1, 2, 3]) := by decide
+
+/-- … and `std::vector<float>` aborted (`reserve(size_t(-1)/4)` throws inside `noexcept`). -/
+theorem witness_vector_float_no_limit :
+    parse { Cfg.repaired false with vecGuardLimit := true, vecReserveUnguarded := true } (.vec .f32) ⟨false, none⟩
+      [0, 0, 128, 63] .nil = .noret := by decide
+
+/-- Before b08339f (`lenChecked = false`): eleven `0xff` bytes parsed as `std::list<std::string>` from a flat array
+never return — the unreadable length is taken as 0, nothing is consumed, the loop spins. -/
+theorem witness_unreadable_length :
+    parse { Cfg.repaired false with lenChecked := false } (.list .str) ⟨true, none⟩
+      [255, 255, 255, 255, 255, 255, 255, 255, 255, 255, 255] .nil = .noret := by decide
 
 end Babylon.Properties.C11
